@@ -46,6 +46,7 @@ type driver struct {
 	converge bool
 	ntrav    int
 	routedBias bool // task-centred workloads: most promises are routed
+	settle     bool // convergence phase: every cycle finishes before the next begins
 }
 
 // ---- search: every search goes through the real API helper (state names, limits, cursor
@@ -656,11 +657,22 @@ func (d *driver) drain(max int) error {
 			step = 1
 		}
 		cycles := 40 + 12*rows
+		// in every other run the server is fast relative to the signal timeout (the production
+		// regime: milliseconds against a second): everything a cycle started has finished before the
+		// next cycle begins
+		settle := d.r.Intn(2) == 0 || d.settle
+		w.tr.emit(M{"e": "regime", "t": w.now, "settle": settle})
 		for i := 0; i < cycles; i++ {
 			w.now += step
 			w.tick()
 			if err := d.aioRound(true); err != nil {
 				return err
+			}
+			for k := 0; settle && k < 30 && (len(w.aio.pend) > 0 || len(w.aio.cqes) > 0); k++ {
+				w.tick()
+				if err := d.aioRound(true); err != nil {
+					return err
+				}
 			}
 		}
 	}
